@@ -38,9 +38,9 @@ func (g *vGraph) clone(honour bool) *vGraph {
 
 // c02Stmt: the traversal alphabet. Identifier arguments are symbolic.
 func c02Stmt(name string, wide bool) (*gripql.GraphStatement, string) {
-	n := 18
+	n := 19
 	if wide {
-		n = 24
+		n = 25
 	}
 	switch vChoice(name+".k", n) {
 	case 0:
@@ -80,15 +80,18 @@ func c02Stmt(name string, wide bool) (*gripql.GraphStatement, string) {
 	case 17:
 		return sBothE(), "bothE"
 	case 18:
+		// a filter whose conditions all sit under a negation
+		return sHas(&gripql.HasExpression{Expression: &gripql.HasExpression_Not{Not: vCond("x", gripql.Condition_GT, vFinite(name+".n"))}}), "has(not(gt(x)))"
+	case 19:
 		return sHas(&gripql.HasExpression{Expression: &gripql.HasExpression_And{And: &gripql.HasExpressionList{Expressions: []*gripql.HasExpression{
 			vCond("_label", gripql.Condition_EQ, vSymID(name+".l", 'A', 'B')), vCond("_gid", gripql.Condition_NEQ, "b")}}}}), "has(and(_label,_gid))"
-	case 19:
-		return sHas(vCond("$m.x", gripql.Condition_GT, vFinite(name+".n"))), "has(gt($m.x))"
 	case 20:
-		return sRender(map[string]interface{}{"i": "_gid", "v": "x"}), "render"
+		return sHas(vCond("$m.x", gripql.Condition_GT, vFinite(name+".n"))), "has(gt($m.x))"
 	case 21:
-		return sDistinct("x"), "distinct"
+		return sRender(map[string]interface{}{"i": "_gid", "v": "x"}), "render"
 	case 22:
+		return sDistinct("x"), "distinct"
+	case 23:
 		return sOut(vSymID(name+".l", 'A', 'B')), "out(label)"
 	default:
 		return sHas(vCond("_label", gripql.Condition_WITHIN, []interface{}{vSymID(name+".l", 'A', 'B')})), "has(within(_label))"
